@@ -143,7 +143,17 @@ def plot_case(ctx, _unused):
         spec, info = G.random_teardrop(rng, (0, 0), 10.0, cw=(kind == "U"))
     case = Case(ctx, {"shape": spec}, "%s-%s" % (kind, "curved" if G.spec_is_curved(spec) else "straight"))
     shape = G.build(spec)
-    judge_plot(case, shape)
+    if hasattr(shape, "jordans") and rng.random() < 0.35:
+        # boundaries with removable nodes (left by the library's own split): the plot retraces the
+        # boundary as it is stored, piece by piece
+        from vf.checks.c07 import split_variant
+
+        redundant, exc = call(split_variant, spec, rng)
+        if exc is None and redundant is not None:
+            shape = redundant
+            case.spec["redundant_nodes"] = True
+            case.count("plot:boundaries-with-redundant-nodes")
+    judge_plot(case, shape, multi=rng.random() < 0.35)
     # history: change the same object in place, plot again on a fresh figure
     if hasattr(shape, "jordans") and not case.violations:
         step = rng.choice(["invert", "scale", "move", "rotate"])
@@ -164,11 +174,11 @@ def plot_case(ctx, _unused):
         if step:
             case.spec["then"] = step
             case.count("plot:replot-after-%s" % step)
-            judge_plot(case, shape)
+            judge_plot(case, shape, multi=rng.random() < 0.35)
     return case.finish()
 
 
-def judge_plot(case, shape, white_default=None):
+def judge_plot(case, shape, white_default=None, multi=False):
     import matplotlib
 
     matplotlib.use("Agg")
@@ -178,10 +188,21 @@ def judge_plot(case, shape, white_default=None):
 
     region = S.snap_shape(shape)
     fig = Figure()
-    ax = fig.add_subplot(111)
+    other = None
+    if multi:
+        # the plotter is bound to one axes of a figure with two; the other one was added last and is
+        # the figure's current axes
+        ax = fig.add_subplot(121)
+        other = fig.add_subplot(122)
+        other_face = other.get_facecolor()
+        case.count("plot:bound-to-non-current-axes")
+    else:
+        ax = fig.add_subplot(111)
     default_face = ax.get_facecolor()
     plotter = shapepy.ShapePloter(fig=fig, ax=ax)
     _, exc = call(plotter.plot, shape)
+    if other is not None and exc is None and (other.patches or other.lines or other.collections or other.get_facecolor() != other_face):
+        case.violate("the plot went to another axes of the figure (%d patches there), not to the axes the plotter was given" % len(other.patches))
     case.count("plot:judged")
     case.judged()
     if exc is not None:
